@@ -205,12 +205,18 @@ def compare_program(symbols_text, so, datasets, optsets, names):
         for o in optsets:
             p = Rec(range(n), **data)
             f = F(range(n), **data)
+            if o.get('check'):
+                # instance-level convergence variables differing from the class-level CHECK
+                p.check = list(o['check'])
+                f.check = list(o['check'])
             start = [float(p[k][o['t']]) for k in p.check] if o['entry'] == 'solve_t' and -n <= o['t'] < n else None
             rp = run_side(p, o)
             rf = run_side(f, o)
             # domain probe: the same call with floating-point exceptions trapped; any invalid / divide / overflow in an
             # intermediate result (e.g. log of a negative number feeding min()) puts the run outside "values stay finite"
             probe = Rec(range(n), **data)
+            if o.get('check'):
+                probe.check = list(o['check'])
             with np.errstate(invalid='raise', divide='raise', over='raise', under='ignore'):
                 rprobe = run_side(probe, o, trap=True)
             fp_trapped = rprobe != rp
@@ -286,6 +292,10 @@ def one_program(ctx, prog, rng, workdir, tag, has_literals, depth=0, fixed=None)
             d[nm] = np.full(n, round(rng.uniform(0.1, 0.9), 3))
         datasets.append(d)
     optsets = option_sets(rng, n, L, D, ctx.pick(6, 10))
+    endo = list(Model.ENDOGENOUS)
+    for o in optsets:
+        if len(endo) > 1 and o['entry'] in ('solve', 'solve_t') and rng.random() < 0.3:
+            o['check'] = rng.sample(endo, rng.randint(1, len(endo) - 1))
     if fixed is not None:
         datasets = [{k: np.array(v, dtype=float) for k, v in fixed['data'].items()}]
         optsets = [fixed['options']]
